@@ -23,7 +23,7 @@ from . import run as R
 
 ROOT = R.ROOT
 KDIR = os.path.join(ROOT, 'kani')
-KTARGET = os.path.join(R.CACHE, 'kani-target')
+KTARGET = os.path.join(R.CACHE, 'kani-target' + ('' if os.path.abspath(R.REPO) == '/repo' else '-alt'))
 KCACHE = os.path.join(R.CACHE, 'kani-results')
 
 
